@@ -295,7 +295,7 @@ theorem cancInv_deliver (c : Cfg) (s : State) (id : Nat) (h : CancInv s) : CancI
                   have hst'' := (handle_setWf c s _ st hin).2
                   -- the only setWf effect writes `st`; compute directly
                   have heffs : (handle c s { x with attempts := x.attempts + 1 }).1.flatten =
-                      [.setWf st, .mark x.id] ++ (if st != .succeeded then (List.range c.n).filter (fun i => (s.stage i).status == .running) else []).map (fun i => Eff.push (.cancelStage i)) := by
+                      [.setWf st, .mark x.id] ++ (if st != .succeeded then (List.range c.n).filter (fun i => (s.stage i).status == .running || (s.canceled && !(s.stage i).status.isComplete)) else []).map (fun i => Eff.push (.cancelStage i)) := by
                     simp [handle, hm, hCompleteWorkflow, hnc, hfs, hleg]
                   rw [hshape.core.2.1, heffs]
                   have : ∀ (l : List Eff) (s0 : State), (∀ e ∈ l, ∀ z, e ≠ Eff.setWf z) → (applyTxn s0 (.setWf st :: l)).wfStatus = st := by
